@@ -61,7 +61,12 @@
 (* contribution request and the fetch of the head block (all / some bits set / another parent / error)    *)
 (* answer - per job.  Jobs are not atomic: a call of this group passes several linearization points       *)
 (* (phases: take the job; record the data of the slot; schedule the next job), a head event starts the    *)
-(* message job of its slot on a goroutine of its own (silent steps).                                      *)
+(* message job of its slot on a goroutine of its own (silent steps).  Group attinfo is the same idea    *)
+(* on the attester's side, within part (b): the attestation jobs of every slot of an epoch read the       *)
+(* ENTRIES of the epoch's subscription info (published through controller.subscriptionInfos) without the  *)
+(* lock; a job that alters them (class job-subscription-entries: when the aggregator's account is not     *)
+(* found) must violate Disciplined, and must not with the narrow environment in which the attester        *)
+(* returns no attestations.                                                                               *)
 (*                                                                                              *)
 (* The groups are derived from the goroutine families that main.go wires up (scheduler jobs,      *)
 (* event handlers of the beacon nodes' streams, periodic refreshers, start-up goroutines and the   *)
